@@ -1102,10 +1102,14 @@ pub fn gen_issue_op(rng: &mut Rng, g: &mut IssueGen, s: &Setup, cur: &IssueView)
             actions.push(gen_issue_action(rng, g, s, cur, &delegates).0);
         }
     }
-    if actions.iter().any(|a| matches!(a, IAct::Comment(..))) {
-        g.comments.push((id, actor));
-    }
     SOp { id, actor, doc, actions }
+}
+
+/// Remember the ids an accepted op created (targets for later actions).
+pub fn register_issue_op(g: &mut IssueGen, o: &SOp<IAct>) {
+    if o.actions.iter().any(|a| matches!(a, IAct::Comment(..))) {
+        g.comments.push((o.id, o.actor));
+    }
 }
 
 // ------------------------------------------------------------------ patches
@@ -1168,6 +1172,18 @@ fn gen_patch_action(rng: &mut Rng, g: &PatchGen, s: &Setup, cur: &PatchView, del
             break;
         }
         r -= x;
+    }
+    // without a target of the needed kind, mostly create one instead of aiming at nothing
+    if rng.chance(9, 10) {
+        if (9..=13).contains(&kind) && g.review_comments.is_empty() {
+            kind = 8;
+        }
+        if (6..=13).contains(&kind) && g.reviews.is_empty() {
+            kind = 5;
+        }
+        if (18..=20).contains(&kind) && g.rev_comments.is_empty() {
+            kind = 17;
+        }
     }
     let rev = |rng: &mut Rng| pick_id(rng, &g.revisions);
     let rvw = |rng: &mut Rng| pick_id(rng, &g.reviews);
@@ -1297,7 +1313,15 @@ pub fn gen_patch_op(rng: &mut Rng, g: &mut PatchGen, s: &Setup, cur: &PatchView)
             actions.push(gen_patch_action(rng, g, s, cur, &delegates).0);
         }
     }
-    for a in &actions {
+    SOp { id, actor, doc, actions }
+}
+
+/// Remember the ids an accepted op created (targets for later actions). A
+/// rejected op is remembered now and then, so that dangling targets stay in
+/// the mix.
+pub fn register_patch_op(g: &mut PatchGen, o: &SOp<PAct>) {
+    let (id, actor) = (o.id, o.actor);
+    for a in &o.actions {
         match a {
             PAct::Revision(_) => g.revisions.push((id, actor)),
             PAct::Review(..) => g.reviews.push((id, actor)),
@@ -1307,7 +1331,6 @@ pub fn gen_patch_op(rng: &mut Rng, g: &mut PatchGen, s: &Setup, cur: &PatchView)
             _ => {}
         }
     }
-    SOp { id, actor, doc, actions }
 }
 
 // ------------------------------------------------------------------ tallies
@@ -1440,6 +1463,9 @@ pub fn run_issue_case(run: &mut Run, w: &mut World, id: &str, rng: &mut Rng, f: 
         }
         let privileged = is_delegate(&s, o.doc, o.actor);
         let out = issue_apply(w, issue.as_mut().unwrap(), &o);
+        if matches!(out, Outcome::Ok) || rng.chance(1, 6) {
+            register_issue_op(&mut g, &o);
+        }
         ops.push(o.clone());
         let input = json_ops(&root, &ops);
         match out {
@@ -1543,13 +1569,23 @@ pub fn run_patch_case(run: &mut Run, w: &mut World, id: &str, rng: &mut Rng, f: 
             }
         }
     };
-    let check_merged = |run: &mut Run, what: &str, input: Value, v: &PatchView, thr: Option<u64>| {
+    // Recount when the patch newly reports Merged(r, c): distinct actors that issued Merge(r, c) as a
+    // delegate of their op's document with the commit on their branch, in the history so far. (The
+    // report is sticky by design: a delegate that later replaces its merge does not un-merge the patch,
+    // so the current table may hold fewer entries of the pair; that case is tallied as an observation.)
+    let check_merged = |run: &mut Run, what: &str, input: Value, v: &PatchView, thr: Option<u64>, log: &[(u64, u64, u64, bool, bool)]| {
         if let PState::Merged(r, c) = v.state {
-            let n = v.merges.iter().filter(|(_, rc)| *rc == (r, c)).count() as u64;
+            let backers: BTreeSet<u64> = log.iter().filter(|m| (m.1, m.2, m.3, m.4) == (r, c, true, true)).map(|m| m.0).collect();
+            let n = backers.len() as u64;
+            let current = v.merges.iter().filter(|(_, rc)| *rc == (r, c)).count() as u64;
             match thr {
-                Some(t) if n >= t => {}
+                Some(t) if n >= t => {
+                    if current < t {
+                        run.tally("observation/merged-while-table-holds-fewer-than-threshold");
+                    }
+                }
                 _ => run.fail(id, "c08-merged-below-threshold",
-                    format!("{what}: state became Merged(revision {r}, commit {c}) with {n} recorded merges of that pair; threshold of the op's document: {thr:?}"), input),
+                    format!("{what}: state became Merged(revision {r}, commit {c}) but only {n} distinct delegates ({backers:?}) ever issued an on-branch Merge of that pair ({current} in the table now); threshold of the op's document: {thr:?}"), input),
             }
         }
     };
@@ -1560,7 +1596,7 @@ pub fn run_patch_case(run: &mut Run, w: &mut World, id: &str, rng: &mut Rng, f: 
     if f.check_c08 {
         let input = json!({"setup": setup_json, "history": json_ops(&root, &ops)});
         check_merges(run, "root op", input.clone(), &view, &merge_log);
-        check_merged(run, "root op", input, &view, root.doc.and_then(|k| s.docs.get(k)).map(|d| d.threshold));
+        check_merged(run, "root op", input, &view, root.doc.and_then(|k| s.docs.get(k)).map(|d| d.threshold), &merge_log);
     }
     let main_rev = 1;
     let mut g = PatchGen {
@@ -1588,6 +1624,9 @@ pub fn run_patch_case(run: &mut Run, w: &mut World, id: &str, rng: &mut Rng, f: 
         let privileged = is_delegate(&s, o.doc, o.actor);
         log_merges(w, &o, &mut merge_log);
         let out = patch_apply(w, &mut patch, &o);
+        if matches!(out, Outcome::Ok) || rng.chance(1, 6) {
+            register_patch_op(&mut g, &o);
+        }
         ops.push(o.clone());
         let input = json!({"setup": setup_json, "history": json_ops(&root, &ops)});
         if let Outcome::Panic(p) = &out {
@@ -1671,7 +1710,7 @@ pub fn run_patch_case(run: &mut Run, w: &mut World, id: &str, rng: &mut Rng, f: 
         if f.check_c08 {
             check_merges(run, &what, input.clone(), &after, &merge_log);
             if after.state != view.state {
-                check_merged(run, &what, input.clone(), &after, o.doc.and_then(|k| s.docs.get(k)).map(|d| d.threshold));
+                check_merged(run, &what, input.clone(), &after, o.doc.and_then(|k| s.docs.get(k)).map(|d| d.threshold), &merge_log);
             }
             if let PState::Merged(..) = view.state {
                 let has_merge = o.actions.iter().any(|a| matches!(a, PAct::Merge(..)));
